@@ -210,7 +210,9 @@ func takeSnap(n *chainx.Node, maxID int32) (snap, error) {
 	s.Root = sr.Root.StringLE()
 	s.Storage = digest(n.StorageDump(n.ContractIDs(maxID)))
 	for _, t := range bc.GetMemPool().GetVerifiedTransactions() {
-		s.Mempool = append(s.Mempool, t.Hash().StringLE()[:16])
+		// hash prefix + digest of the full encoding (the hash does not cover witnesses)
+		full := sha256.Sum256(t.Bytes())
+		s.Mempool = append(s.Mempool, t.Hash().StringLE()[:16]+"/"+hex.EncodeToString(full[:4]))
 	}
 	s.Natives = nativeGetters(n)
 	return s, nil
@@ -248,6 +250,8 @@ type stateCtx struct {
 	vals2   keys.PublicKeys // validators of the height of b2
 	ph      map[string]*poolHist
 	chain   []link // the valid blocks at tip+1 .. tip+4 (b, b2, b3, b4), see ext_test.go
+	pagedOnce sync.Once
+	pagedC    *pagedChain
 	bRoot   string // reference state root after b (replica that only ever saw b)
 
 	sp        map[string]*transaction.Transaction // special transactions, see buildSpecials
